@@ -87,8 +87,8 @@ claimed = {
    technique="contract-based deductive verification: byte-exact postconditions over ghost write streams and prophecy read streams, completely unrolled vint loops, header round-trip lemma",
    design="DESIGN.md §11 C02"),
  "C01": dict(
-   text="Proof of the frame-level part of the round trip: for every header with a supported version, an opcode of the matching direction and (v2) a stream id in [-128,127], EncodeHeader into a buffer succeeds and DecodeHeader of those bytes succeeds and returns the same direction, version, flags, stream id, opcode and body length; the same with an opaque body of any length (raw frames); and haveSameTable - which decides the GLOBAL_TABLES_SPEC flag under which the decoder copies one keyspace/table into every column - is true exactly when all columns share keyspace and table.",
-   note="PARTIAL: the round trip of the contents of the 17 message codecs and of the body prefix is NOT decided by this check (no byte-level relational proof over Encode/Decode pairs with strings and collections was completed); lengths are C03, flag/body consistency C20, compression wrappers C08, constants C19.",
+   text="Proof of the frame-level part of the round trip: for every header with a supported version, an opcode of the matching direction and (v2) a stream id in [-128,127], EncodeHeader into a buffer succeeds and DecodeHeader of those bytes succeeds and returns the same direction, version, flags, stream id, opcode and body length; the same with an opaque body of any length (raw frames); and haveSameTable - which decides the GLOBAL_TABLES_SPEC flag under which the decoder copies one keyspace/table into every column - is true exactly when all columns share keyspace and table; and, message by message, Decode(Encode(m)) returns a message of the same kind with the same contents (strings and byte strings compared by length and byte by byte, nil tokens distinguished) for AUTHENTICATE, AUTH_RESPONSE, AUTH_CHALLENGE, AUTH_SUCCESS, OPTIONS, READY, PREPARE (query), REVISE, RESULT Void, RESULT SetKeyspace and the ten ERROR kinds carrying only a message - for all contents and versions.",
+   note="PARTIAL: fields following a variable-length field (UNAVAILABLE, READ/WRITE_TIMEOUT, ALREADY_EXISTS, UNPREPARED, PREPARE keyspace), map- and list-valued messages (STARTUP, SUPPORTED, REGISTER), QUERY/EXECUTE/BATCH options, RESULT Rows/Prepared/SchemaChange, EVENT, failure errors, the body prefix and compression are NOT decided by this check; lengths are C03, flag/body consistency C20, compression wrappers C08, constants C19.",
    technique="contract-based deductive verification: round-trip lemma functions over the real encoder and decoder with completeness clauses for in-memory buffers; loop invariant for the table-spec predicate",
    design="DESIGN.md §11 C01"),
  "C09": dict(
